@@ -72,10 +72,28 @@ macro_rules! exec_cm_impl {
         // same point, other representative: (l^2 X, l^3 Y, l Z)
         "rescale" => {
             let d = idx(op, "d");
-            let l = <$B>::from_j(&op["lam"]);
             let (x, y, z) = {
                 let (x, y, z) = r.p[d].as_tuple();
                 (*x, *y, *z)
+            };
+            // "rel": choose the factor so that the representative's Z relates to register s's Z
+            // (same Z, opposite Z) - operands of one formula that share their scale
+            let l = match op.get("rel").and_then(|v| v.as_str()) {
+                Some(rel) => {
+                    let zs = *r.p[idx(op, "s")].as_tuple().2;
+                    match z.inverse() {
+                        Some(zi) if !zs.is_zero() => {
+                            let mut l = zs;
+                            l.mul_assign(&zi);
+                            if rel == "neg" {
+                                l.negate();
+                            }
+                            l
+                        }
+                        _ => <$B>::one(),
+                    }
+                }
+                None => <$B>::from_j(&op["lam"]),
             };
             let mut l2 = l;
             l2.square();
